@@ -1,14 +1,19 @@
 /- One line per stream handler. -/
 import Comet.Driver.Flat
+import Comet.Driver.Meta
 import Comet.Driver.HNSW
 import Comet.Driver.Dist
 import Comet.Driver.Atomic
 import Comet.Driver.BM25
 import Comet.Driver.HSearch
 import Comet.Driver.Vec5
+import Comet.Driver.Conc
 namespace Comet.Driver
 
 def handlers : List Handler := [
+  MetaStream.handler,
+  ConcStream.handler,
+  SchedStream.handler,
   Vec5Stream.handler,
   HNSWStream.handler,
   HSearchStream.handler,
